@@ -359,6 +359,16 @@ async def scenario(world: WorldA) -> None:
                 spa_present = getattr(man, "_spa", None) is not None
                 sig = f"no-recovery:{st}" + ("" if spa_present else ":no-spa")
                 phases = pump_phases(man.deliveries, world.now())
+                if st == "ERROR_SPA_NOT_FOUND":
+                    # history signature: was the discovery that ended in "not found" (the locate pass that the connect runs itself: the last
+                    # one) starved by faults -- no hello reply of the spa reached the locator during it -- or did replies arrive and the spa
+                    # still was not found?
+                    locs = [(a, b) for (k, a, b) in phases if k == "LOCATING"][-1:]
+                    delivered = 0
+                    for r in world.net.history:
+                        if r.verb == "HELLO" and r.src[0] == SPA_IP:
+                            delivered += sum(1 for (es, t) in r.deliveries if any(a - 1e-6 <= t <= b + 1e-6 for a, b in locs))
+                    sig += ":discovery-starved" if delivered == 0 else ":although-hello-replies-arrived"
                 if st != "ERROR_SPA_NOT_FOUND":
                     # history signature: which pump phase overlapped which user operation, and how -- the operation began while the pump was
                     # inside the phase ("reset-began-during"), or the pump started the phase while the operation was in progress, i.e.
